@@ -162,7 +162,7 @@ def flood_ok(ctx, nsw, phys, flood):
   return msgs
 
 
-def h_forest(ctx, nsw, par, toggle):
+def h_forest(ctx, nsw, par, toggle, order='asc'):
   core = env.get_core()
   ST = ctx.pox('pox.openflow.spanning_tree'); D = ctx.pox('pox.openflow.discovery'); of = ctx.pox('pox.openflow.libopenflow_01')
   dpids = list(range(1, nsw + 1))
@@ -187,11 +187,23 @@ def h_forest(ctx, nsw, par, toggle):
   for i in range(ndir):
     if ctx.bool('link%d' % i): mask |= (1 << i)          # one solver-decided bit per directed link: a binary tree of forks
   def present(m, idx): return (m >> idx) & 1
+  cur = [0]
+  def directed(idx):
+    a, pa, b, pb = cables[idx // 2]
+    return D.Link(dpids[a], pa, dpids[b], pb) if idx % 2 == 0 else D.Link(dpids[b], pb, dpids[a], pa)
   def fill(m):
-    disc.adjacency.clear()
-    for idx, (a, pa, b, pb) in enumerate(cables):
-      if present(m, 2 * idx): disc.adjacency[D.Link(dpids[a], pa, dpids[b], pb)] = clock.now
-      if present(m, 2 * idx + 1): disc.adjacency[D.Link(dpids[b], pb, dpids[a], pa)] = clock.now
+    """move the adjacency to link set m the way Discovery does: one link at a time, each change announced by a LinkEvent
+    that the spanning-tree component handles (its real entry point)"""
+    idxs = list(range(ndir))
+    if order == 'desc': idxs.reverse()
+    for idx in idxs:
+      was, now_ = present(cur[0], idx), present(m, idx)
+      if was == now_: continue
+      L = directed(idx)
+      if now_: disc.adjacency[L] = clock.now
+      else: disc.adjacency.pop(L, None)
+      ST._handle_LinkEvent(D.LinkEvent(bool(now_), L))
+    cur[0] = m
   def state():
     flood = {}
     for a in range(nsw):
@@ -223,13 +235,11 @@ def h_forest(ctx, nsw, par, toggle):
       if not present(m, 2 * idx) and not present(m, 2 * idx + 1):
         ctx.check(tag + 'undiscovered port counts as edge port and floods', flood[(a, pa)] and flood[(b, pb)])
   fill(mask)
-  ST._update_tree()
   check('', mask)
   if toggle:
     t = int(ctx.int('toggle', 0, ndir - 1))
     m2 = mask ^ (1 << t)
     fill(m2)
-    ST._update_tree()
     check('after toggling one link: ', m2)
   ctx.witness('done')
 
@@ -237,12 +247,13 @@ def h_forest(ctx, nsw, par, toggle):
 def obligations(tier):
   thorough = tier != 'quick'
   adj = [dict(npre=n, op=o) for n in (0, 1, 2) for o in ('probe', 'expire', 'down')]
-  forest = [dict(nsw=2, par=1, toggle=True), dict(nsw=2, par=2, toggle=True), dict(nsw=3, par=1, toggle=False), dict(nsw=3, par=1, toggle=True)]
+  forest = [dict(nsw=2, par=1, toggle=True), dict(nsw=2, par=2, toggle=True), dict(nsw=2, par=2, toggle=True, order='desc'), dict(nsw=3, par=1, toggle=False),
+            dict(nsw=3, par=1, toggle=True), dict(nsw=3, par=1, toggle=True, order='desc')]
   forest += [dict(nsw=3, par=2, toggle=False), dict(nsw=4, par=1, toggle=False)]
   if thorough: forest += [dict(nsw=4, par=1, toggle=True), dict(nsw=3, par=2, toggle=True)]
   BOUNDS[tier] = dict(probe="dpid: every hex-digit length 1..16 x all values; ports 1..0xff00; receiving (dpid, port) symbolic",
                       adjacency="0..2 prior probes among 5 directed links over 3 switches with symbolic dpids and time gaps; then probe / expiry at a symbolic instant / "
-                                "ConnectionDown of a symbolic switch", forest=[(f['nsw'], f['par'], f['toggle']) for f in forest])
+                                "ConnectionDown of a symbolic switch", forest=[(f['nsw'], f['par'], f['toggle'], f.get('order', 'asc')) for f in forest], forest_note='link sets are reached one LinkEvent at a time through spanning_tree._handle_LinkEvent (ascending or descending link order)')
   return [
     Obligation('O1_probe', h_probe, [dict(digits=k) for k in range(1, 17)], witnesses=('probe',), max_decisions=30000,
                desc='probe encoding -> packet_out -> packet_in -> adjacency gains exactly the probed link'),
